@@ -100,6 +100,9 @@ def replay_state(st, high=False):
         rows = [k for k, f in enumerate(fits) if not f["below"]] or list(range(len(fits)))
         X, Bp = lsq_linear(A, B[rows], lb=lb, ub=ub, W=Wm[rows], K=Kf, baseline=bl, return_pred=True)
         bad += check_fit(s, w, [fits[k] for k in rows], X, Bp, "default", "lsq_linear", where0)
+        # the same per-receptor weights written as a single 2-D row (1, n_receptors)
+        X, Bp = lsq_linear(A, B[rows], lb=lb, ub=ub, W=np.asarray(w, float)[None, :], K=Kf, baseline=bl, return_pred=True)
+        bad += check_fit(s, w, [fits[k] for k in rows], X, Bp, "default", "lsq_linear(W as one row)", where0)
     except Exception as ex:
         bad.append(("C04.no-error", dict(op="lsq_linear", acc="default", exc=type(ex).__name__, below=False, **where0), None, repr(ex)[:200], None))
     return bad
